@@ -136,4 +136,8 @@ def plan(exp, tier):
     p.not_decided += ['chains of arbitrary length: the per-step contract `X_ed(self, p) == X_ion(p) * self` holds for every step; '
                       'arbitrary chains follow by induction over the chain (meta-argument), a 3-step chain is proved as a theorem function',
                       'rotate_x/y/3d chaining steps are contracted under C04']
+    # IndexMut<(usize,usize)> is an assumed contract of the Verus unit (unsafe slice views); the builders of this property write through it,
+    # so its Kani proof on the real code (crate /verif/kani/c03) is part of this check too
+    import kani_driver
+    p.kani = [sp for sp in kani_driver.load_specs('c03') if 'index_mut' in sp['harness']]
     return p
